@@ -4,6 +4,7 @@
 import GeonumModel.Lemmas.GeonumMag
 import GeonumModel.Lemmas.GradeAngle
 import GeonumModel.Lemmas.Exact
+import GeonumModel.Lemmas.ExactAdd
 
 set_option linter.unusedSectionVars false
 set_option linter.unusedVariables false
@@ -152,9 +153,32 @@ theorem reference_metric (a b c : Geonum ℝ) :
     ‖cartC a - cartC c‖ ≤ ‖cartC a - cartC b‖ + ‖cartC b - cartC c‖ :=
   ⟨norm_sub_rev _ _, by simp, norm_sub_le_norm_sub_add_norm_sub _ _ _⟩
 
+theorem cartC_eq_cart (g : Geonum ℝ) : cartC g = cart g := rfl
+
+/-- (E) the magnitude of `a − b` is the Euclidean distance of the Cartesian points to within `1e-10·(1+|a|+|b|)` — so the distance
+    agrees with subtraction -/
+theorem sub_mag_is_distance {a b : Geonum ℝ} (ha : a.angle.Inv) (hb : b.angle.Inv) (h0a : 0 ≤ a.mag) (h0b : 0 ≤ b.mag)
+    (hm : 0 ≤ (a.sub b).mag) (hcb : a.angle.blade + (b.angle.blade + 2) ≤ 2 ^ 40) :
+    |(a.sub b).mag - ‖cartC a - cartC b‖| ≤ 1 / 10 ^ 10 * (1 + a.mag + b.mag) := by
+  have hn := negate_spec hb
+  have hninv : b.negate.angle.Inv := inv_of_spec hb hn.2
+  have h := add_refines ha hninv h0a (show 0 ≤ b.negate.mag from h0b) (by
+    show a.angle.blade + b.angle.negate.blade ≤ 2 ^ 40
+    rw [hn.1]; exact hcb)
+  have hcn : cart b.negate = -cart b := by
+    show polar b.mag (T b.angle.negate) = -polar b.mag (T b.angle)
+    rw [negate_total_real hb, polar_add_pi]
+  rw [hcn] at h
+  have hnorm : ‖cart (a.sub b)‖ = (a.sub b).mag := by
+    show ‖polar (a.sub b).mag _‖ = _
+    rw [norm_polar, abs_of_nonneg hm]
+  have e : cartC a - cartC b = cart a + -cart b := by rw [cartC_eq_cart, cartC_eq_cart]; ring
+  rw [e, ← hnorm]
+  exact le_trans (abs_norm_sub_norm_le _ _) h
+
 end E
 
-/-! PARTIAL (not yet proved): distance = |a − b| (needs the Cartesian refinement of `+`), and the inversion laws (same ray,
+/-! PARTIAL (not yet proved): the inversion laws (same ray,
     |p'−c||p−c| = r², involution).  Explored by `oracle.C13.*`. -/
 
 example {F : Type} [FloatSpec F] : (⟨zero, 0⟩ : Angle F).Inv := inv_zero 0
